@@ -36,6 +36,8 @@ pub const A_BORROWED: u32 = 1 << 20;
 pub const A_EXTEND_HUGE_HINT: u32 = 1 << 21;
 pub const A_CAPACITY_HUGE: u32 = 1 << 22;
 pub const A_PEEK_MUT: u32 = 1 << 23;
+/// consuming APIs on a clone (sorted iteration resumed after a caught panic, sorted vectors, into_iter, conversion)
+pub const A_CONSUME: u32 = 1 << 24;
 
 pub const A_CORE: u32 = A_PUSH | A_PUSH_INCDEC | A_CHANGE | A_CHANGE_BY | A_REMOVE | A_POP | A_POP_IF;
 pub const A_BULK: u32 = A_RETAIN | A_RETAIN_MUT | A_ITER_MUT | A_EXTEND | A_APPEND | A_CLEAR_DRAIN | A_CONVERT;
@@ -615,6 +617,7 @@ pub fn gen_ops(cfg: &Cfg, double: bool, m: &Model, back_offered: bool, out: &mut
     if a & A_CONVERT != 0 {
         out.push(Op::Convert);
     }
+    gen_consume(a, n, out);
 }
 
 /// Structural target positions of a heap of n elements.
@@ -928,6 +931,7 @@ pub fn gen_ops_large(cfg: &Cfg, double: bool, m: &Model, snap: &Snap, back_offer
     if a & A_CONVERT != 0 {
         out.push(Op::Convert);
     }
+    gen_consume(a, n, out);
 }
 
 /// `gen_ops`, or its large-queue variant when `cfg.large` and the tables are available.
@@ -936,6 +940,18 @@ pub fn gen_ops_for(cfg: &Cfg, double: bool, m: &Model, snap: &Snap, back_offered
         gen_ops_large(cfg, double, m, snap, back_offered, out)
     } else {
         gen_ops(cfg, double, m, back_offered, out)
+    }
+}
+
+fn gen_consume(a: u32, n: usize, out: &mut Vec<Op>) {
+    if a & A_CONSUME != 0 {
+        let n32 = n as u32;
+        for (f, b) in [(0, 0), (1, 1), (0, n32), (n32 / 2, 1), (2, 0)] {
+            out.push(Op::Consume { how: 0, front: f, back: b });
+        }
+        for how in 1..=5u8 {
+            out.push(Op::Consume { how, front: 0, back: 0 });
+        }
     }
 }
 
@@ -970,6 +986,11 @@ pub fn op_name(op: &Op) -> &'static str {
         Op::GetMut(..) => "get_mut",
         Op::PeekMut { .. } => "peek_mut",
         Op::Convert => "convert",
+        Op::Consume { how: 0, .. } => "into_sorted_iter",
+        Op::Consume { how: 1, .. } | Op::Consume { how: 2, .. } => "into_sorted_vec",
+        Op::Consume { how: 3, .. } => "into_iter",
+        Op::Consume { how: 4, .. } => "into_vec",
+        Op::Consume { .. } => "convert-and-drain",
     }
 }
 
